@@ -371,7 +371,7 @@ pub fn run(ctx: &Ctx) -> Outcome {
         texts.push(c.case.rendered.source.clone());
     }
     {
-        let sc = Scope { n: 2, t: 2, p: 3, k: 2, symmetry: false };
+        let sc = Scope { n: 2, t: 2, p: 3, k: 2, symmetry: false, only_cyclic: false };
         let rhss = all_rhs(sc.n, sc.t, sc.k);
         let mut idx = 0u64;
         for unit in work_units(&sc, u128::MAX) {
